@@ -47,10 +47,7 @@ if os.environ.get("VERIF_SMOKE"):      # a sub-scope of quick, for trying mutant
     SCOPES["quick"] = SCOPES["quick"][:1]
 
 
-def _containers(T):
-    import scipy.sparse as sp
-    return [("dense", T.copy()), ("csr", sp.csr_matrix(T)), ("lil", sp.lil_matrix(T)),
-            ("csc", sp.csc_matrix(T))]
+from props.c07 import _containers  # noqa: E402  (dense C / F / strided view, csr, lil, csc)
 
 
 def _flat(rows):
@@ -101,7 +98,7 @@ def replay_case(c):
                         warnings.simplefilter("ignore")
                         got = getattr(tpt, fname)(M, a_src, a_snk, populations=pops)
                 except Exception as ex:
-                    if fname == "net_fluxes" and cont != "dense":
+                    if fname == "net_fluxes" and not cont.startswith("dense"):
                         key = "net_fluxes/sparse/raises"
                     else:
                         key = "%s/%s/raises-%s" % (fname, cont, type(ex).__name__)
